@@ -22,6 +22,7 @@ CS, _ = loader.load_cut("onnxscript.rewriter.rules.common._collapse_slices")
 EX, _ = loader.load_cut("onnxscript.rewriter.rules.common._remove_expand_before_binary_op")
 IU, _ = loader.load_cut("onnxscript.rewriter._ir_utils")
 MR, _ = loader.load_cut("onnxscript.rewriter.rules.common._materialize_reshape_shape")
+PC, _ = loader.load_cut("onnxscript.rewriter.rules.common._fuse_pad_into_conv")
 
 
 # ----------------------------------------------------------------------------------------------------------- stubs
@@ -442,6 +443,68 @@ def materialize_reshape(k0: int, k1: int, k2: int, d0: int, d1: int, d2: int, ra
     return all(tgt[i] == out_rt[i] for i in range(rank) if tgt[i] != -1)
 
 
+# ------------------------------------------------------------------------------------------- Pad into Conv helpers
+def fill_pads(rank: int, n: int, a0: int, a1: int, a2: int, p0: int, p1: int, p2: int, q0: int, q1: int, q2: int) -> bool:
+    """fill_pads_with_axes(pads, axes, rank) = the explicit [begin..., end...] list of ONNX Pad with an `axes` input: axis a gets
+    (begin, end) = (pads[i], pads[i + N]); every other axis (0, 0)
+    vp-pre: 1 <= rank <= 3 and 0 <= n <= rank
+    vp-pre: 0 <= a0 < rank and 0 <= a1 < rank and 0 <= a2 < rank and a0 != a1 and a0 != a2 and a1 != a2
+    """
+    axes = [a0, a1, a2][:n]
+    pads = [p0, p1, p2][:n] + [q0, q1, q2][:n]
+    r = PC.fill_pads_with_axes(pads, axes, rank)
+    if len(r) != 2 * rank:
+        return False
+    for ax in range(rank):
+        if ax in axes:
+            i = axes.index(ax)
+            want = (pads[i], pads[i + n])
+        else:
+            want = (0, 0)
+        if (r[ax], r[ax + rank]) != want:
+            return False
+    return True
+
+
+def same_pads(mode: int, x: int, k: int, st: int, d: int) -> bool:
+    """NormalizePadFormatConv.compute_pads for auto_pad SAME_UPPER / SAME_LOWER on one spatial axis: with the output annotated
+    ceil(x / stride) (ONNX), the explicit pads reproduce that output size and put the odd element at the end (UPPER) / beginning (LOWER)
+    vp-pre: 0 <= mode <= 1 and x >= 1 and 1 <= k <= 4 and 1 <= st <= 3 and 1 <= d <= 3
+    """
+    kk = _pickc(k, 1, 4)
+    ss = _pickc(st, 1, 3)
+    dd = _pickc(d, 1, 3)
+    y = (x + ss - 1) // ss
+    attrs = {"auto_pad": "SAME_UPPER" if mode == 0 else "SAME_LOWER", "kernel_shape": [kk], "strides": [ss], "dilations": [dd]}
+    r = PC.NormalizePadFormatConv.compute_pads([x], [y], attrs)
+    if len(r) != 2:
+        return False
+    b, e = r[0], r[1]
+    span = (kk - 1) * dd + 1
+    if b < 0 or e < 0:
+        return False
+    total = b + e
+    if x + total < span:
+        return False
+    out = (x + total - span) // ss + 1
+    if out != y:
+        return False
+    # ONNX: total = max(0, (y - 1) * stride + span - x); SAME_UPPER puts the extra element at the end
+    want_total = (y - 1) * ss + span - x
+    if want_total < 0:
+        want_total = 0
+    if total != want_total:
+        return False
+    return (b == total // 2) if mode == 0 else (e == total // 2)
+
+
+def _pickc(v, lo, hi):
+    for c in range(lo, hi + 1):
+        if v == c:
+            return c
+    raise AssertionError("out of range")
+
+
 OBLIGATIONS = [
     {"id": "c05.lemma.transpose2", "func": "transpose2", "timeout": 60,
      "functions": ["onnxscript.rewriter.rules.common._basic_rules:TransposeTranspose.check", "onnxscript.rewriter.rules.common._basic_rules:TransposeTranspose.rewrite"],
@@ -455,6 +518,13 @@ OBLIGATIONS = [
     {"id": "c05.lemma.unsqueeze_unsqueeze", "func": "unsqueeze_unsqueeze", "timeout": 120,
      "functions": ["onnxscript.rewriter.rules.common._basic_rules:UnsqueezeUnsqueeze.check", "onnxscript.rewriter.rules.common._basic_rules:UnsqueezeUnsqueeze.rewrite"],
      "bounds": "axes: all integers; rank of x 0..4", "stubs": ["ir_utils.get_singleton_value -> symbolic int", "ir.tensor -> list", "RecOp"]},
+    {"id": "c05.lemma.fill_pads_with_axes", "func": "fill_pads", "timeout": 200,
+     "functions": ["onnxscript.rewriter.rules.common._fuse_pad_into_conv:fill_pads_with_axes"],
+     "bounds": "rank 1..3, 0..rank distinct axes, pad amounts unbounded integers", "stubs": []},
+    {"id": "c05.lemma.same_pads", "func": "same_pads", "timeout": 200,
+     "functions": ["onnxscript.rewriter.rules.common._fuse_pad_into_conv:NormalizePadFormatConv.compute_pads"],
+     "bounds": "one spatial axis: input size unbounded >= 1; kernel 1..4, stride 1..3, dilation 1..3 (concretised by forks so that the arithmetic stays linear); both SAME modes",
+     "stubs": []},
     {"id": "c05.lemma.materialize_reshape", "func": "materialize_reshape", "timeout": 200,
      "functions": ["onnxscript.rewriter.rules.common._materialize_reshape_shape:MaterializeReshapeShape.check",
                    "onnxscript.rewriter.rules.common._materialize_reshape_shape:MaterializeReshapeShape.rewrite"],
